@@ -33,7 +33,8 @@ ASSUMPTIONS = [
     "the model computes over Rat",
     "segment-pen round trip: smooth flags are guessed by fontTools' GuessSmoothPointPen from float angles - masked; names "
     "and identifiers are not carried by the segment protocol",
-    "the glyph state after a rejected (raising) pen call is not modelled: such a glyph is 'poisoned' for the rest of the case",
+    "a glyph that could not be assembled from (deliberately invalid) content is deleted again and 'poisoned' (no further "
+    "direct ops); after other unexpected errors a glyph is poisoned too; the state after a REJECTED PEN CALL is modelled",
     "copy/insert destinations are fresh glyphs (Glyph(), Layer.newGlyph), as Layer.insertGlyph uses copyDataFromGlyph",
     "lib values are opaque to the model (canonical JSON dump); colours are given in normalised form",
     "the check targets defcon WITH repo_fixes/C13-decompose-shallow.diff applied",
@@ -749,6 +750,7 @@ class World(object):
         self.keep = []
         self.glyphs = {}          # (font id, name) -> glyph object
         self.poisoned = set()
+        self.tainted = set()
         self.pairs = []           # (src key, dst key, dst object) of successful copies/inserts
         self.stats = {}
         self.good = 0
@@ -790,7 +792,7 @@ class World(object):
         g = self.glyphs.get(key)
         if g is None:
             return [Atom("err"), Atom("KeyError")], None
-        ctx = dict(op=op, key=key, variant=self.state_of(g))
+        ctx = dict(op=op, key=key, variant=self.state_of(g), tainted=key in self.tainted)
         try:
             out = self.run_op(op, g, ctx)
             self.count("ok." + k)
@@ -801,7 +803,13 @@ class World(object):
                 self.count("err.PenError")
                 ctx["error"] = "PenError"
                 return [Atom("err"), Atom("PenError")], ctx
-            self.poisoned.add(key)
+            if k != "pen":
+                self.poisoned.add(key)
+            else:
+                # a rejected pen call leaves the glyph as the calls before it made it: modelled, not poisoned;
+                # identifiers of a contour that was begun and never appended stay registered (C10's concern),
+                # so the oracle does not judge identifier handling / rejections on this glyph any more
+                self.tainted.add(key)
             ctx["error"] = type(e).__name__
             self.count("err." + type(e).__name__)
             return err_of(e), ctx
@@ -837,7 +845,12 @@ class World(object):
         except Exception as e:
             if isinstance(e, RuntimeError):
                 raise
+            # a glyph that could not be assembled is taken out of the font again (so that no component
+            # resolves to a half-built base glyph) and is poisoned for direct ops
             self.poisoned.add(key)
+            self.glyphs.pop(key, None)
+            if n in font:
+                del font[n]
             self.count("err." + type(e).__name__)
             return err_of(e), dict(op=op, key=key, variant=variant, mk=True, error=type(e).__name__)
 
@@ -913,6 +926,9 @@ class World(object):
         if k in ("decompose", "decomposeAll"):
             ctx["before"] = stream(g)
             ctx["ids_before"] = used_identifiers(g, ctx["before"])
+            # identifiers registered but carried by no object: left behind by an earlier REJECTED pen call
+            # (C10's concern); then only the outline of the decomposition is judged here
+            ctx["leaked"] = sorted(set(g.identifiers) - set(ctx["ids_before"]))
             ctx["font"] = self.fonts.get(op[1])
             if k == "decompose":
                 comp = g.components[op[3]]
@@ -1293,7 +1309,8 @@ def oracle_step(w, ctx, step):
         else:
             indices = [0] * ncomp
         if err:
-            viol.append(V("decompose-raises", ctx, error=err))
+            if not ctx.get("tainted"):
+                viol.append(V("decompose-raises", ctx, error=err))
         else:
             exp = expected_decomposition(ctx["font"], before, ctx["ids_before"], indices)
             got = [norm_ev(e) for e in stream(ctx["result"])]
@@ -1303,7 +1320,10 @@ def oracle_step(w, ctx, step):
                 ee = [(e[:6] + (None,)) if e[0] == "pt" else (("bp", None) if e[0] == "bp" else
                       (e[:3] + (None,) if e[0] == "comp" else e)) for e in exp]
                 clause = "decompose-outline" if ge != ee else "decompose-identifiers"
-                viol.append(V(clause, ctx, expected=exp, observed=got))
+                if clause == "decompose-identifiers" and (ctx.get("leaked") or ctx.get("tainted")):
+                    w.count("decompose.identifiers-not-judged-after-rejected-call")
+                else:
+                    viol.append(V(clause, ctx, expected=exp, observed=got))
     elif k == "pen":
         before = ctx.get("before")
         evs = [_ce(e) for e in op[4]]
@@ -1311,7 +1331,7 @@ def oracle_step(w, ctx, step):
         if not wf:
             return []
         # the property speaks about drawing into an EMPTY glyph: only that is judged here
-        if before or ctx["variant"] == "shallow":
+        if before or ctx["variant"] == "shallow" or ctx.get("tainted"):
             return []
         inc = stream_ids(evs)
         skip = bool(op[3])
